@@ -1653,7 +1653,7 @@ class HealSparseMap(object):
             sparse_map_out = sparse_map_out._degrade(nside_out, reduction=reduction, weights=weights)
         else:
             if self._nside_sparse == nside_out:
-                sparse_map_out = self
+                sparse_map_out = self.copy()
             else:
                 # Regular degrade
                 sparse_map_out = self._degrade(nside_out,
